@@ -17,7 +17,7 @@
 (* quantifies r over the value space (small constants), the trace            *)
 (* specifications T_*.tla bind r to the value logged from the real code.     *)
 (***************************************************************************)
-EXTENDS LaneInt, TLC
+EXTENDS LaneInt, LaneBool, TLC
 
 VARIABLES reg, breg, last
 xvars == <<reg, breg, last>>
@@ -66,4 +66,50 @@ Ew2IntWith(op, t, a, b, r) ==
   /\ reg' = [reg EXCEPT ![0] = r, ![1] = a, ![2] = b, ![3] = NoRow]
   /\ last' = <<op, t>>
   /\ UNCHANGED breg
+
+\* ---- comparisons, select, Boolean registers (C03) ------------------------------------------------
+FmtOf(t) == IF t = "f32" THEN F32 ELSE F64
+CmpLane(op, t, x, y) == IF TypeTab[t].kind = "float" THEN CmpFloat(op, FmtOf(t), x, y) ELSE CmpInt(op, TypeTab[t].S, x, y)
+\* r holds one byte (0/1) per lane
+CmpBad(op, t, a, b, r) == {i \in LaneIdx(t) : r[i + 1] # B2I(CmpLane(op, t, Lane(a, t, i), Lane(b, t, i)))}
+CmpWith(op, t, a, b, r) ==
+  /\ CmpBad(op, t, a, b, r) = {}
+  /\ breg' = r /\ reg' = [reg EXCEPT ![1] = a, ![2] = b] /\ last' = <<op, t>>
+\* select(c, x, y): the unmodified bit pattern of x[i] if c[i] else y[i]
+SelBad(t, m, x, y, r) == {i \in LaneIdx(t) : Lane(r, t, i) # (IF MaskLane(m, t, i) THEN Lane(x, t, i) ELSE Lane(y, t, i))}
+SelWith(t, m, x, y, r) ==
+  /\ SelBad(t, m, x, y, r) = {}
+  /\ reg' = [reg EXCEPT ![0] = r, ![1] = m, ![2] = x, ![3] = y] /\ last' = <<"select", t>> /\ UNCHANGED breg
+
+\* register-granular Boolean operations on masks p, q of n lanes (sequences of 0/1); numeric results are 8-digit sequences
+OneOf(t) == IF t = "f32" THEN <<0, 0, 128, 63>> ELSE IF t = "f64" THEN <<0, 0, 0, 0, 0, 0, 240, 63>> ELSE OneN(TypeTab[t].nb)
+RECURSIVE Flat(_, _)
+Flat(ss, i) == IF i > Len(ss) THEN <<>> ELSE ss[i] \o Flat(ss, i + 1)
+BoolOpsMask == {"and", "or", "xor", "andnot", "eq", "neq", "land", "lor", "fand", "for", "fxor", "not", "lnot", "fnot", "id",
+                "get", "cast_i", "cast_u", "cast_f", "from_mask"}
+BoolOpsNum  == {"mask", "all", "any", "none", "count"}
+BoolOpsLane == {"tobatch", "bitcast", "select01"}
+BoolExpected(op, t, n, p, q) ==
+  CASE op \in {"and", "land", "fand"} -> MAnd(p, q)
+    [] op \in {"or", "lor", "for"}    -> MOr(p, q)
+    [] op \in {"xor", "fxor", "neq"}  -> MXor(p, q)
+    [] op = "andnot" -> MAndNot(p, q)
+    [] op = "eq"     -> MEq(p, q)
+    [] op \in {"not", "lnot", "fnot"} -> MNot(p)
+    [] op \in {"id", "get", "cast_i", "cast_u", "cast_f"} -> p
+    [] op = "mask"   -> MaskVal(p)
+    [] op = "all"    -> Fix(FromInt(B2I(MAll(p))), 8)
+    [] op = "any"    -> Fix(FromInt(B2I(MAny(p))), 8)
+    [] op = "none"   -> Fix(FromInt(B2I(MNone(p))), 8)
+    [] op = "count"  -> Fix(FromInt(MCount(p)), 8)
+    [] op \in {"tobatch", "select01"} -> Flat([i \in 1 .. n |-> IF p[i] = 1 THEN OneOf(t) ELSE ZeroN(TypeTab[t].nb)], 1)
+    [] op = "bitcast" -> Flat([i \in 1 .. n |-> IF p[i] = 1 THEN AllOnes(TypeTab[t].nb) ELSE ZeroN(TypeTab[t].nb)], 1)
+BoolOK(op, t, n, a, b, r) ==
+  IF op = "from_mask"
+  THEN BitLen(a) > n \/ r = FromMask(a, n)            \* arguments >= 2^n are outside the contract
+  ELSE LET p == SubSeq(a, 1, n)  q == IF b = NoRow THEN p ELSE SubSeq(b, 1, n)
+       IN op \in (BoolOpsMask \cup BoolOpsNum \cup BoolOpsLane) /\ BoolExpected(op, t, n, p, q) = r
+BoolWith(op, t, n, a, b, r) ==
+  /\ BoolOK(op, t, n, a, b, r)
+  /\ breg' = r /\ last' = <<op, t>> /\ UNCHANGED reg
 =============================================================================
